@@ -366,6 +366,7 @@ func TestC14(t *testing.T) {
 			"oracle: model = set of connected clients that registered for SCHEMA_CHANGE; after each emit (ordered marker event + OPTIONS fence) each of them has exactly one new EVENT frame on stream -1 equal to the emitted event, all others none; topology/status events reach nobody; "+
 			"non-trivial = an emit with >=1 registered and >=1 unregistered client connected, or after a disconnect/failover; distinct by case content")
 	defer finish(t, rec)
+	rec.SetJournalAll(true)
 	rec.Assume("events emitted while no control connection exists are not owed; the version byte of EVENT frames is not asserted")
 	runProp(t, rec, "history", perShard(evid.Pick(1000, 30000)), func(rt *rapid.T) c14Case {
 		c := c14Gen(rt)
